@@ -1,6 +1,6 @@
 (* C05 - Component trees start in order: construct all, prepare, children, then start. *)
 From Coq Require Import List Bool Arith.
-From Asphalt Require Import Conc.Skeleton Conc.Startup Conc.StartupProofs.
+From Asphalt Require Import Conc.Skeleton Conc.Startup Conc.StartupProofs Conc.StartupFuel.
 Import ListNotations.
 
 (* For every component tree (pre-order numbering), every script of every method, every choice of
@@ -56,3 +56,16 @@ Theorem C05_concurrent : forall P s p d,
   rank (ph s d) <> 0.
 Proof. exact children_begin_together. Qed.
 Print Assumptions C05_concurrent.
+
+(* the model's run-to-quiescence loop never runs out of fuel: every state a run reaches (any tree,
+   scripts, timeout, gate sequence) is settled -- the startup has ended, or nothing silent is left
+   to do -- so "at every quiescent point" above (and in C06) means "at every point of every run
+   while the startup is running" *)
+Theorem C05_fuel_suffices : forall P timeout gs, let '(s, tr) := start_run P timeout gs in settled P s.
+Proof. exact fuel_suffices. Qed.
+Print Assumptions C05_fuel_suffices.
+
+Theorem C05_reached_is_quiescent : forall P timeout gs,
+  let '(s, tr) := start_run P timeout gs in is_running s = true -> quiescent P s.
+Proof. exact reached_is_quiescent. Qed.
+Print Assumptions C05_reached_is_quiescent.
